@@ -9,7 +9,8 @@ import (
 // ProgGen generates random well-formed bundles over a tiny name pool so that
 // params, lets and loop variables collide and shadow each other.
 // Every name has a fixed type, so programs are well-typed by construction:
-//   a, i, v : int     b, s : string     x : list of int     m : map of string     c : bool
+//
+//	a, i, v : int     b, s : string     x : list of int     m : map of string     c : bool
 type ProgGen struct {
 	R *rand.Rand
 	// options
